@@ -69,10 +69,12 @@ def run_variant(v, tier="quick"):
         prop = v["prop"].lower()
         p = subprocess.run(
             ["/venv/bin/python", os.path.join(VERIF, "checks", prop + ".py"), "--tier", tier],
-            capture_output=True, text=True, env=env, cwd=VERIF, timeout=600,
+            capture_output=True, text=True, env=env, cwd=VERIF, timeout=240,
         )
         out = p.stdout + p.stderr
         rc = p.returncode
+    except subprocess.TimeoutExpired:
+        out, rc = "TIMEOUT", None
     finally:
         shutil.rmtree(d, ignore_errors=True)
     expect = v.get("expect", "fire")
